@@ -54,7 +54,7 @@ REAL_STUB = {
 PROPS = {
     "C03": {"scen": [("c03", ["debug", "internal", "omp", "tbb"])], "quick": 24, "thorough": 600},
     "C12": {"scen": [("c12buf", ["debug", "debugn"]), ("c12val", ["debug", "debugn"])], "quick": 24, "thorough": 600},
-    "C08": {"scen": [("c08", ["debug", "debugn"])], "quick": 24, "thorough": 600},
+    "C08": {"scen": [("c08", ["debug", "debugn"]), ("c08chain", ["debug", "debugn"])], "quick": 24, "thorough": 600},
     "C19": {"scen": [("c19", ["debug", "debugn"])], "quick": 24, "thorough": 600},
     "C01": {"scen": [("c01", ["internal", "internalp", "omp", "tbb", "debug"])], "quick": 25, "thorough": 900},
     "C02": {"scen": [("c02", ["internal", "internalp", "omp", "tbb", "debug"])], "quick": 28, "thorough": 900},
